@@ -162,6 +162,10 @@ def _aggregates(ctx):
            'children' in N.txt(loop.ast.iter),
            'recomputation ranges over the children: %s' %
            N.txt(loop.ast.iter))
+    # ... all of them: a child that is skipped (not up) must not end the
+    # accumulation, or the aggregate under-states what a later child offers
+    K.exhaustive_loop(ctx, 'C02.1', down, loop,
+                      'recomputation over the children')
     mine = [f for f in facts[acc] if any(
         m == child or m.startswith(child + '.') for m in f.mentions)]
     okfacts = []
@@ -936,6 +940,10 @@ def _exact_fit(ctx, nz):
 def _identity_release(ctx):
     loop = PlacementLoop(ctx)
     reached = loop.reached
+    # an instance that is skipped (no identity, not feasible, over the cap)
+    # does not end the walk: the instances behind it still get their turn
+    K.exhaustive_loop(ctx, 'C02.6', loop.func, loop.head,
+                      'placement walk over the queue')
     for edge in K.loop_back_edges(loop.head):
         bad = None
         states = set()
